@@ -186,6 +186,23 @@ def run(ctx) -> None:
             why = "ready list is filtered by targets of the gates that are ready in this step"
     rep.add("C03.R3", f"{grn.qname}:gate-decides-first", ok, grn.loc(), why)
 
+    # completeness of the block: every target of a ready gate other than END and the gate itself is blocked
+    from .common import must_reach_in_iteration
+
+    tl = [n for n in cfg.nodes if n.kind == "for" and isinstance(n.ast.iter, ast.Attribute) and n.ast.iter.attr == "targets"]
+    adds = [n for n in cfg.nodes if any(isinstance(c.func, ast.Attribute) and c.func.attr in ("add", "update") and isinstance(c.func.value, ast.Name) and "block" in c.func.value.id for c in cfg.calls_at(n))]
+    ok = bool(tl) and bool(adds)
+    if ok:
+        lp = tl[0]
+        tv = lp.ast.target.id if isinstance(lp.ast.target, ast.Name) else "target"
+        val = {f"{tv} is END": False}
+        # the only other exemption allowed: the gate itself
+        for t in cfg.nodes:
+            if t.kind == "test" and t.ast is not None and contains(lp.ast, t.ast) and isinstance(t.ast, ast.Compare) and isinstance(t.ast.ops[0], ast.Eq) and tv in src(t.ast):
+                val[src(t.ast)] = False
+        ok = must_reach_in_iteration(cfg, lp, adds, val)
+    rep.add("C03.R3", f"{grn.qname}:all-targets-blocked", ok, grn.loc(), "every target of a ready gate (other than END and the gate itself) is blocked for this step" if ok else "a target of a ready gate can escape the block under an additional condition (e.g. because it is itself a ready gate): it runs in the deciding gate's own step, before the decision exists")
+
     # ---- R4 ---------------------------------------------------------------------
     check_end_never_cleared(ctx, "C03.R4")
     gan = db.func("runners._shared.helpers._get_activated_nodes")
@@ -312,6 +329,7 @@ VARIANTS = [
     Variant("multi-target-skips-elements", RV, replace_once("    for target in decision:\n        _validate_single_target(node, target)\n", "    return\n"), {"C03.R2"}),
     Variant("ready-ignores-wait-for", HP, replace_once("    if not _wait_for_satisfied(node, state):\n        return False\n", ""), {"C03.R3"}),
     Variant("ready-no-gate-block", HP, replace_once("        if blocked_targets:\n            ready = [n for n in ready if n.name not in blocked_targets]\n", ""), {"C03.R3"}),
+    Variant("ready-gates-never-blocked", HP, replace_once("                if target == gate_name:\n                    continue\n                blocked_targets.add(target)", "                if target in ready_gate_names:\n                    continue\n                blocked_targets.add(target)"), {"C03.R3"}),
     Variant("clear-after-activation", HP, replace_once("    _clear_stale_gate_decisions(graph, state)\n\n    activated = set()\n", "    activated = set()\n").__call__ and (lambda s: s.replace("    _clear_stale_gate_decisions(graph, state)\n\n    activated = set()\n", "    activated = set()\n").replace("    return activated\n\n\ndef _clear_stale_gate_decisions", "    _clear_stale_gate_decisions(graph, state)\n    return activated\n\n\ndef _clear_stale_gate_decisions")), {"C03.R4"}),
     Variant("end-activates", HP, replace_once("    if decision is END:\n        return False\n    if decision is None:\n        return False\n", "    if decision is None:\n        return False\n"), {"C03.R4"}),
     Variant("runner-ready-list-unfiltered", SR, replace_once("                    ready_nodes,\n                    values,\n                    self._make_execute_node(event_processors),", "                    [n for n in graph._nodes.values() if n.name not in state.node_executions] or ready_nodes,\n                    values,\n                    self._make_execute_node(event_processors),"), {"C03.R5"}),
